@@ -1,17 +1,17 @@
 SPECIFICATION Spec
-CONSTANTS MaxPre = 2 MaxN = 4
+CONSTANTS MaxPre = 1 MaxN = 3
   PreAlphabet <- AlphaSmall
   Accs <- AccsSmall
   Posts <- PostsSmall
-  FlowKinds = {"bare", "pairs", "ctx"}
-  Drivers = {"fill"}
-  Places = {"alone"}
-  StopFlag = "per_branch"
+  FlowKinds = {"ctx"}
+  Drivers = {"split"}
+  Places = {"afterstop"}
+  StopFlag = "per_buffer"
   CopyMode = "per_branch"
-  Bufs <- BufOne
+  Bufs <- BufQuick
 INVARIANT DriversAgree
 INVARIANT FillReaches
 INVARIANT StopSound
 INVARIANT ComputeOnce
-INVARIANT Emitted
+INVARIANT BufBound
 CHECK_DEADLOCK FALSE
